@@ -60,7 +60,7 @@ func main() {
 	}
 	out = bufio.NewWriter(f)
 	debug.SetGCPercent(-1)
-	debug.SetMemoryLimit(3 << 30)
+	debug.SetMemoryLimit(512 << 20)
 	repo := props.RepoRoot()
 	if *kvPath != "" {
 		if b, err := os.ReadFile(*kvPath); err == nil {
@@ -131,7 +131,14 @@ func main() {
 			cnt++
 			cs := &core.Case{Prop: p.ID, Campaign: camp.Name, Seed: *seed, Run: idx}
 			emit("B %s %d", camp.Name, idx)
+			t0 := time.Now()
 			o, traces := props.Execute(p, cs, *tier, repo, st, false)
+			if time.Since(t0) > 25*time.Millisecond {
+				// a slow run usually means a large allocation: give the memory back so that the
+				// next large allocation gets fresh zero pages instead of a multi-GiB memclr
+				debug.FreeOSMemory()
+				sinceGC = 0
+			}
 			st.Runs++
 			st.Campaigns[camp.Name]++
 			st.Ticks += o.Ticks
@@ -154,6 +161,8 @@ func main() {
 				st.C["viol:"+sig]++
 				if seen[sig] == 1 && len(seen) <= 40 {
 					full := &core.Case{Prop: p.ID, Campaign: camp.Name, Seed: *seed, Run: idx, Lanes: traces, ReplayAll: true}
+					// a candidate may kill the process (the orchestrator then keeps the seed-based case)
+					emit("m %s %d", camp.Name, idx)
 					rf := minimise(p, full, o.Viol, *tier, repo, *minBudget)
 					b, _ := json.Marshal(rf)
 					emit("V %s", b)
@@ -284,7 +293,11 @@ func printInfo(id string) {
 // minimised by the orchestrator, one process per candidate).
 func minimise(p *props.Prop, cs *core.Case, v *core.Violation, tier, repo string, budget int) *core.ReplayFile {
 	sig := v.Sig()
+	t0 := time.Now()
 	test := func(l map[string][]uint64) (bool, map[string][]uint64) {
+		if time.Since(t0) > 6*time.Second {
+			return false, l // time box: keep what we have
+		}
 		c2 := *cs
 		c2.Lanes = l
 		c2.ReplayAll = true
